@@ -212,6 +212,16 @@ Theorem C14_copy_restore : forall a b t i b' c later b2,
 Proof. exact copy_restore. Qed.
 Print Assumptions C14_copy_restore.
 
+(* a checkpoint transferred into rocksdb_backup/remote and applied by RestoreFromRemoteBackup, after any history *)
+Theorem C14_copy_remote_restore : forall a b t i b' c later b2,
+  wf b ->
+  ck_lookup (vs_cks a) (enc_name t i) = Some c ->
+  vcopy_remote a b t i = (b', ROk) ->
+  vstep (run b' later) (ORestoreRemote t i) = (b2, ROk) ->
+  vs_val b2 = ck_val c.
+Proof. exact copy_remote_restore. Qed.
+Print Assumptions C14_copy_remote_restore.
+
 (* the production path of a lagging replica: PrepareSnapshot (use the local checkpoint or fetch the
    peer's), later RestoreFromSnapshot *)
 Theorem C14_fetch_restore : forall a b t i b' later b2,
@@ -249,7 +259,7 @@ Example C14_ex_history :
   let s := run (vinit 0 5) [OWrite 11; OBackup 1 7 11; OWrite 22; OFinish 99 22; OWrite 33] in
   vs_val s = 33 /\ vs_val (fst (vstep s (ORestore 1 7))) = 11 /\
   vs_val (run s [ORestore 1 7; OWrite 44; ORestore 1 7]) = 11 /\ wf s.
-Proof. vm_compute. repeat split; try reflexivity. repeat constructor; intuition. Qed.
+Proof. vm_compute. repeat split; try reflexivity; repeat constructor; intuition. Qed.
 (* a file plan: data dir {000001.sst (same as ck), 000002.sst (stale), LOG, MANIFEST-1}, checkpoint {000001.sst, MANIFEST-2, LOG} *)
 Example C14_ex_plan :
   let f s t := {| fm_kind := KFile; fm_size := s; fm_head := 0; fm_tail := t |} in
